@@ -6,6 +6,7 @@ package zzverif
 
 import (
 	"fmt"
+	"strconv"
 	"strings"
 	"testing"
 	"unicode"
@@ -347,6 +348,115 @@ func c14Replace(s, p, r []rune) string {
 	return string(out)
 }
 
+// --- nested string expressions -------------------------------------------------------------
+
+// A case is a generated expression in which string functions occur inside the receiver
+// and inside the integer arguments of other string functions; the harness computes the
+// expected string from the same tree (rune model), staying inside the in-range cases the
+// statement defines.
+type c14NestCase struct {
+	Src  string `json:"src"`
+	Want string `json:"want"`
+}
+
+var c14NestAlphabet = []string{"a", "b", "Z", " ", "é", "€", "😀", "x", "ǅ", "$", "1", "."}
+
+func c14NestLit(s Src, n int) []rune {
+	var out []rune
+	for len(out) < n {
+		out = append(out, []rune(pickOne(s, c14NestAlphabet))[0])
+	}
+	return out
+}
+
+// c14NestInt: an integer expression whose value is exactly k, built from string functions.
+func c14NestInt(s Src, k, depth int) string {
+	if depth <= 0 || s.Prob(25) {
+		return strconv.Itoa(k)
+	}
+	switch s.Intn(4) {
+	case 0:
+		return quoteFP(string(c14NestLit(s, k))) + ".length()"
+	case 1:
+		if k == 0 {
+			return "0" // substring at the very end is the out-of-range case (empty): not a number
+		}
+		d := s.Range(0, 3)
+		return quoteFP(string(c14NestLit(s, k+d))) + ".substring(" + c14NestInt(s, d, depth-1) + ").length()"
+	case 2:
+		a := s.Range(0, k)
+		return "(" + quoteFP(string(c14NestLit(s, a))) + " & " + quoteFP(string(c14NestLit(s, k-a))) + ").length()"
+	}
+	// the position of a marker that does not occur before
+	pre := make([]rune, k)
+	for i := range pre {
+		pre[i] = []rune(pickOne(s, []string{"a", "é", "😀", " "}))[0]
+	}
+	return quoteFP(string(pre)+"Q"+string(c14NestLit(s, s.Range(0, 2)))) + ".indexOf('Q')"
+}
+
+func c14NestStr(s Src, depth int) (string, []rune) {
+	if depth <= 0 || s.Prob(20) {
+		v := c14NestLit(s, s.Range(1, 8))
+		return quoteFP(string(v)), v
+	}
+	src, v := c14NestStr(s, depth-1)
+	switch s.Intn(6) {
+	case 0: // substring(start)
+		if len(v) == 0 {
+			return src, v
+		}
+		k := s.Intn(len(v))
+		return "(" + src + ").substring(" + c14NestInt(s, k, depth-1) + ")", v[k:]
+	case 1, 2: // substring(start, length): the length argument is itself built from string functions
+		if len(v) == 0 {
+			return src, v
+		}
+		k := s.Intn(len(v))
+		l := s.Range(1, len(v)-k)
+		return "(" + src + ").substring(" + c14NestInt(s, k, depth-1) + ", " + c14NestInt(s, l, depth-1) + ")", v[k : k+l]
+	case 3:
+		src2, v2 := c14NestStr(s, depth-1)
+		return "(" + src + " & " + src2 + ")", append(append([]rune{}, v...), v2...)
+	case 4:
+		if strings.ContainsAny(string(v), "ßİ") {
+			return src, v
+		}
+		if s.Bool() {
+			return "(" + src + ").upper()", []rune(strings.Map(unicode.ToUpper, string(v)))
+		}
+		return "(" + src + ").lower()", []rune(strings.Map(unicode.ToLower, string(v)))
+	}
+	if len(v) == 0 {
+		return src, v
+	}
+	i := s.Intn(len(v))
+	pat := v[i : i+1+s.Intn(len(v)-i)]
+	rep := c14NestLit(s, s.Range(0, 2))
+	return "(" + src + ").replace(" + quoteFP(string(pat)) + ", " + quoteFP(string(rep)) + ")", []rune(c14Replace(v, pat, rep))
+}
+
+func c14GenNest(s Src) c14NestCase {
+	src, v := c14NestStr(s, s.Range(1, 4))
+	return c14NestCase{Src: src, Want: string(v)}
+}
+
+func c14RunNest(ctx *Ctx, c c14NestCase) {
+	out := evalWith(c.Src, nil, nil)
+	ctx.Eval(c.Src, strings.Count(c.Src, "(") >= 2, "fn:nested", fmt.Sprintf("depth:%d", strings.Count(c.Src, ".substring(")))
+	if out.Panic != "" {
+		ctx.Fail("strings nested: panic@"+out.Panic, c.Src)
+		return
+	}
+	want := `[String:` + strconv.Quote(c.Want) + `]`
+	if c.Want == "" && out.Err == nil && len(out.Coll) == 0 {
+		return // an empty string result may also be the empty collection (substring at the end)
+	}
+	if out.failed() || renderColl(out.Coll) != want {
+		ctx.Fail("strings nested: a composition of string functions differs from the character model", fmt.Sprintf("%s → %s, want %s", c.Src, out, want))
+	}
+}
+
 func TestC14(t *testing.T) {
 	r := newRec("C14",
 		"cases are (function, receiver string, pattern/replacement, start, length, delivery): strings of 0..12 runes over {ASCII, space, é (2 bytes), € (3), 😀 (4), combining acute, ß, İ, quote, backslash}, start ∈ [-2,len+2] ∪ boundary int32, length ∈ [-1,len+2] ∪ boundary int32, patterns = rune-aligned substrings, near misses, '' and random strings; receivers as literals, System variables and FHIR string/code/markdown/uri elements; an exhaustive stage enumerates every string of length ≤ 3 (quick) / ≤ 5 (thorough) over a 5-rune alphabet × all positions × all short substrings; non-trivial = bytes ≠ characters before the position/pattern, or the position is out of range, or (other functions) the receiver has a multi-byte rune; distinct = FNV-64 of (source, operands)",
@@ -354,5 +464,6 @@ func TestC14(t *testing.T) {
 	runProperty(t, r,
 		Stage[c14Case]{Name: "short-strings", Enum: c14Enum, Run: c14Run},
 		Stage[c14Case]{Name: "random", Gen: c14Gen, Run: c14Run, N: pick(30000, 250000)},
+		Stage[c14NestCase]{Name: "nested", Gen: c14GenNest, Run: c14RunNest, N: pick(6000, 150000)},
 	)
 }
